@@ -511,6 +511,11 @@ def rand_ptset(g, ctx, allow_range=True, limit=6):
     if allow_range and limit >= 2 and rng.random() < 0.5:
         lo = [rng.randint(1, max(1, zs[j])) for j in range(idim)]
         hi = [rng.randint(lo[j], max(lo[j], zs[j])) for j in range(idim)]
+        r = rng.random()
+        if r < 0.25:            # a range that covers ONE point: the patch is smaller than the two points the node holds
+            hi = list(lo)
+        elif r < 0.45:          # the whole zone: the patch is far larger than the two points
+            lo = [1] * idim; hi = [max(1, zs[j]) for j in range(idim)]
         return 4, 2, lo + hi, prod(h - l + 1 for l, h in zip(lo, hi))
     n = rng.randint(1, max(1, min(6, limit)))
     pts = [rng.randint(1, max(1, zs[j % idim])) for j in range(n * idim)]
